@@ -90,6 +90,11 @@ func contractHasTag(c *Contract, p string) bool {
 	if c.Delegates != nil && hasTag(c.Delegates.Tags, p) {
 		return true
 	}
+	for _, nr := range c.NoReads {
+		if hasTag(nr.Tags, p) {
+			return true
+		}
+	}
 	for _, cl := range c.Requires {
 		if hasTag(cl.Tags, p) {
 			return true
